@@ -101,3 +101,8 @@ for d in /verif/seeded/S8-C*; do
   esac
   m $d/patch.diff $p $extra
 done
+# round 9
+for d in /verif/seeded/S9-C*; do
+  s=$(basename $d); p=${s#S9-}; p=${p%%-*}
+  m $d/patch.diff $p
+done
